@@ -501,6 +501,10 @@ class NodeSpace:
             def __iter__(self):
                 return ChildIter(self, sp)
 
+            @property
+            def _elements(self):
+                return ChildList(self, sp)
+
             def contains(self, other, top_level=False):
                 if not top_level:
                     raise Unsupported("contains(top_level=False)")
@@ -844,6 +848,8 @@ class VC:
 
     def new_list(self, name, items=()):
         items = list(items)
+        if name in getattr(self, "factories", {}):
+            return self.factories[name](items)
         if items and all(isinstance(x, str) for x in items):
             return Log(name, items)
         if items and not all(isinstance(x, (Rv, int, float)) for x in items):
@@ -1015,8 +1021,9 @@ def _stored_names(nodes: List[ast.stmt]) -> List[str]:
 
 
 class _Rewriter(ast.NodeTransformer):
-    def __init__(self, fn_name: str):
+    def __init__(self, fn_name: str, label: Optional[str] = None):
         self.fn = fn_name
+        self.label = label or fn_name
         self.ordinal = 0
         self.loop_stack: List[Tuple[str, int]] = []
 
@@ -1071,7 +1078,7 @@ class _Rewriter(ast.NodeTransformer):
         if node.orelse:
             raise Unsupported(f"for/else in {self.fn}")
         self.ordinal += 1
-        lid = (self.fn, self.ordinal)
+        lid = (self.label, self.ordinal)
         self.loop_stack.append(lid)
         body = [self.visit(s) for s in node.body]
         body = [s for b in body for s in (b if isinstance(b, list) else [b])]
@@ -1208,6 +1215,21 @@ def build_main(outer: ast.FunctionDef, ns: Dict[str, Any], vc: VC, standins: Dic
     g["__standins"] = standins
     exec(compile(mod, f"<hoare:{outer.name}:main>", "exec"), g)
     return g[outer.name]
+
+
+def build_function(fn: ast.FunctionDef, ns: Dict[str, Any], vc: VC, label: Optional[str] = None):
+    """a module-level function or a method, compiled on its own with the loop rewrite (`label` names it in loop ids)"""
+    f2 = copy.deepcopy(fn)
+    f2.decorator_list = []
+    name = f2.name
+    f2 = _Rewriter(name, label).visit(f2)      # loop ids are (label, ordinal): methods of different classes get different labels
+    f2 = strip_all_annotations(f2)
+    mod = ast.Module(body=[f2], type_ignores=[])
+    ast.fix_missing_locations(mod)
+    g = dict(ns)
+    g["__vc"] = vc
+    exec(compile(mod, f"<hoare:{label or name}>", "exec"), g)
+    return g[name]
 
 
 def _strip_annotations(body):
